@@ -49,7 +49,8 @@ LAYOUTS = {
     ),
     "semver": dict(
         pattern="MAJOR.MINOR.PATCH[-TAGNUM]", start="1.2.3", date=dt.date(2021, 6, 1),
-        files={"setup.py": ['version="{pep440_version}"'], "docs/index.md": ["release {version} of"], "docs/series.md": ["the MAJOR.MINOR series"]},
+        # setup.py is configured under a spelling that is not normalised (git and the file system resolve it to setup.py)
+        files={"docs/../setup.py": ['version="{pep440_version}"'], "docs/index.md": ["release {version} of"], "docs/series.md": ["the MAJOR.MINOR series"]},
         content={"setup.py": 'setup(name="demo", version="1.2.3")\n', "docs/index.md": "This is release 1.2.3 of demo.\r\n",
                  "docs/series.md": "Documentation of the 1.2 series.\n"},
         u=["--patch"], u2=["--minor"], u3=["--tag", "rc"], fail=["--set-version", "0.0.1"],
